@@ -354,6 +354,39 @@ CASES += [
          old="""                    new_coeffs[i + j] =
                         new_coeffs[i + j] + (self.coefficients[i] * rhs.coefficients[j]);""",
          new="""                    new_coeffs[i + j] = self.coefficients[i] * rhs.coefficients[j];"""),
+    dict(name="law-eu-mul-zero-probability-shortcut", file="src/util/semirings/expectation.rs", rule="LAW", props=["C13", "C07"],
+         expect="mul-fast-path",
+         old="""        let eu: f64 = (self.0 * rhs.1) + (self.1 * rhs.0);
+        ExpectedUtility(self.0 * rhs.0, eu)""",
+         new="""        if self.0 == 0.0 || rhs.0 == 0.0 {
+            return ExpectedUtility(0.0, 0.0);
+        }
+        let eu: f64 = (self.0 * rhs.1) + (self.1 * rhs.0);
+        ExpectedUtility(self.0 * rhs.0, eu)"""),
+    dict(name="law-eu-mul-zero-element-shortcut-ok", file="src/util/semirings/expectation.rs", rule="LAW", props=["C13", "C07"],
+         expect=None,
+         old="""        let eu: f64 = (self.0 * rhs.1) + (self.1 * rhs.0);
+        ExpectedUtility(self.0 * rhs.0, eu)""",
+         new="""        if self.0 == 0.0 && self.1 == 0.0 {
+            return ExpectedUtility(0.0, 0.0);
+        }
+        let eu: f64 = (self.0 * rhs.1) + (self.1 * rhs.0);
+        ExpectedUtility(self.0 * rhs.0, eu)"""),
+    dict(name="law-real-mul-zero-shortcut-ok", file="src/util/semirings/realsemiring.rs", rule="LAW", props=["C13", "C07"],
+         expect=None,
+         old="""        RealSemiring(self.0 * rhs.0)
+    }
+}
+
+impl ops::Sub<RealSemiring> for RealSemiring {""",
+         new="""        if rhs.0 == 0.0 {
+            return RealSemiring(0.0);
+        }
+        RealSemiring(self.0 * rhs.0)
+    }
+}
+
+impl ops::Sub<RealSemiring> for RealSemiring {"""),
     dict(name="law-eu-choose-smaller", file="src/util/semirings/expectation.rs", rule="LAW", props=["C13"], expect="ExpectedUtility:choose",
          old="""impl BBSemiring for ExpectedUtility {
     fn choose(&self, arg: &ExpectedUtility) -> ExpectedUtility {
